@@ -275,9 +275,14 @@ func redefinedArgs(w *World, rf *am.Func, call int, r *rand.Rand) ([]am.Arg, []L
 		}
 		conc := concreteFor(t, r)
 		l := Label{Name: v.Name, Type: conc, Sub: v.Subtype}
+		if isIface(t) {
+			// a named requirement of an interface type is only matched by a
+			// type-only value of an implementing type
+			l.Name = ""
+		}
 		id := w.FreshInput(call, 1000+i, l)
 		val := mk(conc, id).Interface()
-		args = append(args, am.NamedSubtype(v.Name, val, v.Subtype))
+		args = append(args, am.NamedSubtype(l.Name, val, v.Subtype))
 		labels = append(labels, l)
 		ids = append(ids, id)
 	}
